@@ -39,7 +39,7 @@ type c21World struct {
 	pristine string
 }
 
-var c21TreeAtoms = []string{"/Top/Str=str:abc", "/Top/KlStr[str:a]/V=u32:1", "/Top/LlStr=ll:[\"str:a\"]", "/Top/En=enum:RED", "/Top/U8=u8:1", "/Top/Dec=dec:-0.5", "/Top/Un=enum:BLUE", "/Top/Ols/Ol[str:a]/V=u32:1"}
+var c21TreeAtoms = []string{"/Top/Str=str:abc", "/Top/Pstr=str:abc", "/Top/KlStr[str:a]/V=u32:1", "/Top/LlStr=ll:[\"str:a\"]", "/Top/En=enum:RED", "/Top/U8=u8:1", "/Top/Dec=dec:-0.5", "/Top/Un=enum:BLUE", "/Top/Ols/Ol[str:a]/V=u32:1"}
 
 func c21NewWorld(p *core.Pkg) *c21World {
 	atoms, ok := p.AtomsByName(c21TreeAtoms)
@@ -63,6 +63,7 @@ func c21NewWorld(p *core.Pkg) *c21World {
 		Prefix: &gpb.Path{Elem: []*gpb.PathElem{{Name: "top"}}},
 		Delete: []*gpb.Path{{Elem: []*gpb.PathElem{{Name: "u16"}}}},
 		Update: []*gpb.Update{{Path: &gpb.Path{Elem: []*gpb.PathElem{{Name: "str"}}}, Val: &gpb.TypedValue{Value: &gpb.TypedValue_StringVal{StringVal: "a"}}},
+			{Path: &gpb.Path{Elem: []*gpb.PathElem{{Name: "pstr"}}}, Val: &gpb.TypedValue{Value: &gpb.TypedValue_StringVal{StringVal: "ab c"}}},
 			{Path: &gpb.Path{Elem: []*gpb.PathElem{{Name: "kl-str", Key: map[string]string{"k": "a"}}, {Name: "c"}, {Name: "x"}}}, Val: &gpb.TypedValue{Value: &gpb.TypedValue_StringVal{StringVal: "abc"}}}},
 	}
 	w.pristine = w.sharedSnapshot()
